@@ -230,6 +230,19 @@ async fn run_async(case: &Case, fx: &Fixture) -> CaseResult {
     }
     // ORDER BY refers to output names: use the original's names for both (positions are what is compared)
     if let Some(d) = compare_rows(&case.sql.query, &field_names(&original.schema), &original.rows, &rows1) {
+        // recorded finding: join keys with NullEquality::NullEqualsNull (not visible in the plan text) are printed `a = b`
+        let mut null_equal_join = false;
+        let _ = plan.apply_with_subqueries(|n| {
+            if let LogicalPlan::Join(j) = n {
+                if !j.on.is_empty() && j.null_equality == datafusion::common::NullEquality::NullEqualsNull {
+                    null_equal_join = true;
+                }
+            }
+            Ok(TreeNodeRecursion::Continue)
+        });
+        if null_equal_join && !text.contains("IS NOT DISTINCT FROM") {
+            return known_violation(&["unparser-null-equal-join-keys-become-plain-equality"], format!("the unparsed SQL returns other rows (plan has a join with null-equal keys, the text has none): {d}{}", ctxt())).labels(labels);
+        }
         return CaseResult::violation(format!("the unparsed SQL returns other rows: {d}{}", ctxt())).labels(labels);
     }
     if field_names(&original.schema) != field_names(&schema1) {
